@@ -39,9 +39,14 @@ package table
 
 // The filter is built from all collected hashes.
 //@ func (*Builder).Done
-//@   props C19
+//@   props C19 C18 C23
 //@   light
 //@   assert[all-hashes] before call NewFilter : arg0 == b.keyHashes
+//@   assert[filter-sized-for-all-keys] before call BloomBitsPerKey : arg0 == len(b.keyHashes) && arg1 == b.opts.BloomFalsePositive
+//@   assert[filter-bits-as-computed] before call NewFilter : arg1 == ret(BloomBitsPerKey#1)
+//@   assert[filter-goes-into-index] before call buildIndex : called(NewFilter#1) ==> arg1 == ret(NewFilter#1)
+//@   assert[index-encrypted-when-keyed] before call calculateChecksum : ret(shouldEncrypt#1) ==> arg1 == ret0(encrypt#1)
+//@   assert[checksum-of-stored-index] before return#2 : result.index == index && result.checksum == ret(calculateChecksum#1)
 
 // ---- accessors ----
 
@@ -217,4 +222,12 @@ package table
 //@   assert[synced-before-use] before call OpenTable : called(Msync#1) && ret(Msync#1) == nil && arg0 == ret0(OpenMmapFile#1)
 //@   assert[sync-the-file-data] before call Msync : arg0 == ret0(OpenMmapFile#1).Data && called(Copy#1)
 //@   assert[fresh-file-only] before call Copy : ret1(OpenMmapFile#1) == z.NewFile
+
+// Opening a table: the index is used only after its checksum was verified; the table consults
+// its bloom filter exactly when the index carries one.
+//@ func (*Table).initIndex
+//@   props C19 C18
+//@   light
+//@   assert[index-checksum-verified] before call readTableIndex : called(VerifyChecksum#1) && ret(VerifyChecksum#1) == nil
+//@   assert[filter-presence-recorded] before return : result1 == nil ==> called(BloomFilterBytes#1) && (t.hasBloomFilter <==> len(ret(BloomFilterBytes#1)) > 0)
 
